@@ -788,6 +788,8 @@ public:
   CpuFeatures _cpu_features;
   //! Base address or \ref Globals::kNoBaseAddress.
   uint64_t _base_address;
+  //! Base address passed to \ref init() - restored by \ref reinit() (`relocate_to_base()` changes `_base_address`).
+  uint64_t _init_base_address;
 
   //! Attached `Logger`, used by all consumers.
   Logger* _logger;
